@@ -330,6 +330,21 @@ def _consumers(prog, rep):
     r3 = rep.rule("R3", "the bonding limit is 2.5 A", floor=1)
     r3.add("limit-constant", consts.get("BONDED_SS_LIMIT") == 2.5, f"config.BONDED_SS_LIMIT folds to {consts.get('BONDED_SS_LIMIT')}; the model pairs at "
            "2.49 A (bridged) and 2.6 A (free) decide how it is compared", "pdb2pqr/config.py")
+    # bridges are looked for once every sulfur is there: heavy-atom repair (which rebuilds a missing SG) comes before the search on every path
+    nt_ = prog.func("main.py", "non_trivial").node
+    order_ = {id(x): i for i, x in enumerate(iter_stmts(nt_.body))}
+
+    def _st(n_):
+        while n_ is not None and not isinstance(n_, ast.stmt):
+            n_ = parent(n_)
+        return n_
+
+    seq = sorted((order_[id(_st(c))], U(c.func).split(".")[-1]) for c in calls_in(nt_) if U(c.func).split(".")[-1] in ("repair_heavy", "update_ss_bridges"))
+    first_search = min((i for i, n_ in seq if n_ == "update_ss_bridges"), default=None)
+    last_repair = max((i for i, n_ in seq if n_ == "repair_heavy"), default=None)
+    r3.add("search-after-repair", first_search is not None and last_repair is not None and last_repair < first_search,
+           f"statements of non_trivial in source order: repair_heavy at {[i for i, n_ in seq if n_ == 'repair_heavy']}, update_ss_bridges at "
+           f"{[i for i, n_ in seq if n_ == 'update_ss_bridges']} (a sulfur rebuilt by the repair must be seen by the search)", f"pdb2pqr/main.py:{nt_.lineno} (non_trivial)")
     # ------------------------------------------------------------------ R5
     r5 = rep.rule("R5", "consumers honour the bridge state (HG suppression, CYX naming, clash exemption)", floor=4)
     ah = prog.func("biomolecule.py", "Biomolecule.add_hydrogens").node
